@@ -28,7 +28,7 @@ func NewXTEA(key, iv []byte) BlockCryptor {
 	return &xteaCrypt{
 		block: block,
 		key:   key,
-		iv:    iv,
+		iv:    append(make([]byte, 0, len(iv)), iv...), // private copy, capacity = length
 	}
 }
 
